@@ -47,6 +47,13 @@ static interactive_t *cip[MAXCL];	/* server side of u<k> once accepted */
 static int unread[MAXCL];	/* bytes sent since the last cycle */
 static int nclients = 0, naccepted = 0;
 
+/* fresh heap memory is filled with a non-zero pattern (all of it, not only the first page), so that a field of
+ * interactive_t that new_interactive() forgets to initialise shows up as wrong flags instead of as a lucky zero */
+const char *__asan_default_options (void)
+{
+  return "max_malloc_fill_size=1048576:malloc_fill_byte=165";
+}
+
 /* ---- interposed libc ------------------------------------------------------ */
 int bind (int fd, const struct sockaddr *addr, socklen_t len)
 {
